@@ -296,6 +296,40 @@ def malformed_cases(rng, doc, which=None):
     return out
 
 
+WHITESPACE_TEXTS = ["", " ", "\n", "\n\n\n", "\t\n  \n", "\r\n", "\r\n\r\n", "   \n\n", "\ufeff", "\ufeff\n"]
+
+
+def malformed_stream(rng, doc, budget):
+    """configuration files that are NOT JSON, systematically: empty / whitespace-only / blank-lines-only, the BOM,
+    and a valid document cut off at every byte (compact and indented spelling), each also followed by a newline or
+    CR LF (a half-written file usually ends in one).  The loader sees all of them, the other entry points a sample."""
+    names = list(doc["mcpServers"])
+    texts = list(INVALID_TEXTS) + WHITESPACE_TEXTS
+    for spelling in (json.dumps(doc), json.dumps(doc, indent=1), json.dumps(doc, indent=2).replace("\n", "\r\n")):
+        n = len(spelling)
+        if budget == "quick":
+            after_nl = [i + 1 for i, ch in enumerate(spelling) if ch == "\n"]
+            ks = sorted(set(after_nl[:8] + [1, 2, n - 1] + [rng.randrange(1, n) for _ in range(5)]))
+        else:
+            ks = range(1, n)
+        for k in ks:
+            pre = spelling[:k]
+            texts.append(pre)
+            if budget != "quick" or k % 3 == 0 or pre.endswith("\n"):
+                texts.append(pre + "\n")
+                texts.append(pre + "\r\n")
+        texts += [spelling + ",", spelling + spelling, "\ufeff" + spelling, spelling[:-1] + "\n"]
+    out, seen = [], set()
+    for i, t in enumerate(texts):
+        if t in seen:
+            continue
+        seen.add(t)
+        for e in (ENTRIES if i % 5 == 0 else ["loader"]):
+            sel = [names[0]] if e != "runner" else names[:2]
+            out.append({"entry": e, "file": "invalid", "text": t, "names": sel, "expect": "invalid-json"})
+    return out
+
+
 BARE = "verif-mcp-witness"      # a command NAME (no directory part): found through PATH
 DEFPATH = "/bin:/usr/bin"       # what the OS searches when the child's environment has no PATH
 
@@ -425,6 +459,9 @@ class Entry(Suite):
         for cf in ("interactive_mode", "chat_run", "raises"):
             out.append({"entry": "runner", "file": "ok", "doc": d3, "names": ["q", "p", "r"], "expect": "valid", "cmdfunc": cf,
                         "user_specified": ["p"], "repeat": 2 if cf == "chat_run" else 1})
+        out += malformed_stream(rng, d0, budget)
+        if budget != "quick":
+            out += malformed_stream(rng, d1, budget)
         nconf = {"quick": 40, "thorough": 400, "search": 120}[budget]
         for i in range(nconf):
             if i % 5 == 4:
